@@ -598,3 +598,31 @@ def extra(tier, rng):
     return {'report': {'grid_equals_round_half_even': f'{agree}/{len(rows)}',
                        'note': 'informational: the grid size is read from the implementation in every compared case'},
             'violations': []}
+
+
+
+# ------------------------------------------------------------------ WP-T2: translation layer (source -> Gallina)
+# An ADDITIONAL tie: harness/gen_src.py (suite 'C09') translates the integer shape checks of lentil/propagate.py:propagate_fft from the CURRENT source
+# text into coq/theories/Gen/FftSrc.v; Proofs/FftSrcP.v proves every translated term equal to the model for all integers;
+# Properties/C09Src.v states it.  Policy (as for C06): a function the translator refuses is only reported
+# (coverage.extra.source_translation.refused); a translated function whose equivalence lemma no longer compiles is a
+# VIOLATION with a witness searched on an exhaustive small box (replayable: op 'src').  The build of C09Src happens
+# here, never in COQ_TARGETS.  The checks of the `extra` defined above are kept unchanged; their report is extended.
+_extra_before_src_layer = extra
+
+
+def extra(tier, rng):
+    from .. import gen_src as G
+    base = _extra_before_src_layer(tier, rng)
+    layer = G.run_layer('C09', ID, tier, rng, C)
+    report = dict(base.get('report', {}))
+    report['source_translation'] = layer['report']
+    return {'report': report, 'violations': list(base.get('violations', [])) + layer['violations']}
+
+
+def _wrap_src_replay():
+    from .. import gen_src as G
+    return G.wrap_replay(run_impl, oracle, C)
+
+
+run_impl, oracle = _wrap_src_replay()
